@@ -13,6 +13,7 @@ import inspect
 import logging
 import math
 import pathlib
+import re
 import struct
 import types
 from typing import Any, Callable
@@ -752,6 +753,19 @@ def binop(I: Interp, op: ast.operator, a: V, b: V) -> V:
                 return z3.StringVal(c.decode("ascii"))
             return strings.AsciiBytes(z3.Concat(st(a), st(b)))
         return VBytes(z3.Concat(a.t, b.t), a.mutable)
+    if isinstance(a, VBytes) and isinstance(op, ast.Mod) and a.concrete() is not None:
+        # bytes formatting with %b / %s placeholders only: literal pieces and the arguments
+        fmt = a.concrete()
+        pieces = re.split(rb"%[bs]", fmt)
+        args_ = list(b.items) if isinstance(b, VTuple) else [b]
+        if b"%" not in b"".join(pieces) and len(pieces) == len(args_) + 1 and all(
+                isinstance(x, VBytes) for x in args_):
+            out: V = VBytes(pieces[0])
+            for x, lit in zip(args_, pieces[1:]):
+                out = binop(I, ast.Add(), out, x)
+                if lit:
+                    out = binop(I, ast.Add(), out, VBytes(lit))
+            return out
     if isinstance(a, VBytes) and is_intlike(b) and isinstance(op, ast.Mult):
         n = VInt(as_int(I, b)).concrete()
         ac = a.concrete()
@@ -801,7 +815,12 @@ def binop(I: Interp, op: ast.operator, a: V, b: V) -> V:
                 return wrap(ac ** bc)
         raise Unsupported(f"float op {type(op).__name__}")
     if not (is_intlike(a) and is_intlike(b)):
-        if a is NONE or b is NONE or type(a) is not type(b) or isinstance(a, (VObj, VDict)):
+        # a Python TypeError is modelled only where CPython certainly raises one (None as an
+        # operand of an arithmetic operator); every other unmodelled combination - bytes % x,
+        # str % tuple, objects with operator methods ... - is outside the subset, never an
+        # exception of the program
+        if (a is NONE or b is NONE) and not isinstance(a, (VObj, VConst)) \
+                and not isinstance(b, (VObj, VConst)):
             I.raise_py(TypeError, f"unsupported operand type(s) for {type(op).__name__}: "
                                   f"'{type_name(a)}' and '{type_name(b)}'")
         raise Unsupported(f"binop {type(op).__name__} on {a!r}, {b!r}")
